@@ -86,6 +86,32 @@ func init() {
 						}
 					})
 				}, Eval: evalC15},
+			{Name: "size-boundaries", Space: "plain text of N-1, N, N+1 bytes for N in {64 KiB, 1 MiB, 4 MiB} and for every integer constant the tree under test has in addition to the pinned tree (a size limit that fails closed): three fillers x three tails", Share: 1,
+				Run: func(w *fw.W) {
+					ns := []int{1 << 16, 1 << 20, 1 << 22}
+					for _, n := range alpha.NewInts() {
+						if n > 300 && n <= 1<<24 {
+							ns = append(ns, n)
+						}
+					}
+					var items [][2]int
+					for _, n := range ns {
+						for d := -1; d <= 1; d++ {
+							for f := 0; f < 3; f++ {
+								items = append(items, [2]int{n + d, f})
+							}
+						}
+					}
+					w.Each(len(items), func(i int) {
+						n, f := items[i][0], items[i][1]
+						fill := []string{"a", "a ", "x>y "}[f]
+						body := alpha.Rep("", fill, "", n)
+						body += strings.Repeat("a", n-len(body))
+						for _, t := range []string{"", "`", " javascript:"} {
+							w.Item(body[:n-len(t)]+t, "")
+						}
+					})
+				}, Eval: evalC15},
 			{Name: "byte-sweep", Space: "every byte value except '<' and '=' at each position of the '<'/'='-free vectors of the HTML byte-sweep family, and between a dangerous attribute name and following text", Share: 1,
 				Run: func(w *fw.W) {
 					var items []string
@@ -107,7 +133,7 @@ func init() {
 				}, Eval: evalC15},
 			{Name: "new-literals", Space: deltaSpace + " (symbols with '<' or '=' dropped)", Share: 2,
 				Run: func(w *fw.W) {
-					deltaRun(w, without(uniq(alpha.DeltaHTML(), newByteAtoms()), "<="), uniq([]string{""}, c15Frag), without(alpha.H1core, "<="), uniq(h1, c15Frag))
+					deltaRun(w, without(uniq(alpha.DeltaHTMLRaw(), newByteAtoms()), "<="), without(uniq(alpha.DeltaHTML(), newByteAtoms()), "<="), uniq([]string{""}, c15Frag), without(alpha.H1core, "<="), uniq(h1, c15Frag))
 				}, Eval: evalC15},
 			{Name: "corpus-cuts-stripped", Space: "all fixture cuts with '<' and '=' deleted", Share: 1,
 				Run: func(w *fw.W) { w.Each(len(cuts), func(i int) { w.Item(cuts[i], "") }) }, Eval: evalC15},
